@@ -62,7 +62,12 @@ func (a *ArgMax) Init(n *onnx.NodeProto) error {
 
 // Apply applies the argmax operator.
 func (a *ArgMax) Apply(inputs []tensor.Tensor) ([]tensor.Tensor, error) {
-	axis := ops.ConvertNegativeAxis(a.axis, len(inputs[0].Shape()))
+	rank := len(inputs[0].Shape())
+
+	axis := ops.ConvertNegativeAxis(a.axis, rank)
+	if axis < 0 || axis >= rank {
+		return nil, ops.ErrAxisOutOfRange(rank, rank, a.axis)
+	}
 
 	reduced, err := tensor.Argmax(inputs[0], axis)
 	if err != nil {
